@@ -596,7 +596,9 @@ class TrajRoundTrip:
         eminus.config.verbose = "critical"
         rng = np.random.default_rng(2)
         labels = wit["labels"]
-        frames = [Atoms(labels, rng.uniform(0.5, 5.5, (len(labels), 3)), ecut=1, a=8) for _ in range(2)]
+        # the second frame lists the atoms in another order: every frame carries its own species column
+        orders = [list(labels), list(labels[1:]) + list(labels[:1])]
+        frames = [Atoms(orders[f], rng.uniform(0.5, 5.5, (len(labels), 3)), ecut=1, a=8) for f in range(2)]
         fods = [rng.uniform(0.5, 5.5, (1, 3)), rng.uniform(0.5, 5.5, (2, 3))] if wit["fods"] else None
         try:
             with tempfile.TemporaryDirectory() as d:
@@ -610,7 +612,7 @@ class TrajRoundTrip:
             bad.append(f"{len(out)} frames")
         for f, (atom, pos) in enumerate(out[:2]):
             pos = np.asarray(pos)
-            want = [(lab, np.asarray(frames[f].pos)[i]) for i, lab in enumerate(labels)]
+            want = [(lab, np.asarray(frames[f].pos)[i]) for i, lab in enumerate(orders[f])]
             if fods is not None:
                 want += [("X", p) for p in fods[0]] + [("He", p) for p in fods[1]]
             if len(atom) != len(want):
@@ -661,7 +663,8 @@ class ScfRestart:
             at.kpts.kshift = [0.1, 0.0, 0.05]
             at.occ.smearing = 0.01
             at.occ.bands = 3
-        scf = SCF(at, xc="lda,vwn" if gamma_only else "pbe", opt={"pccg": 3}, etol=1e-14)
+        # the Gamma-only case chains two minimisers in non-alphabetical order: the restored object has to continue with the same sequence
+        scf = SCF(at, xc="lda,vwn" if gamma_only else "pbe", opt={"sd": 2, "pccg": 2} if gamma_only else {"pccg": 3}, etol=1e-14)
         scf.run()
         with tempfile.TemporaryDirectory() as d:
             fn = os.path.join(d, "scf." + fmt)
@@ -675,9 +678,12 @@ class ScfRestart:
                 problems[f"W[{ik}]"] = "coefficients differ"
         if not np.array_equal(np.asarray(scf.atoms.occ.f), np.asarray(scf2.atoms.occ.f)):
             problems["f"] = "fillings differ"
-        # continue both
-        for s in (scf, scf2):
-            s.opt = {"pccg": 2}
+        if list(scf.opt.items()) != list(scf2.opt.items()):
+            problems["opt"] = f"minimiser sequence stored {list(scf.opt.items())}, restored {list(scf2.opt.items())}"
+        # continue both (the Gamma-only case with the minimiser sequence each object holds)
+        if not gamma_only:
+            for s in (scf, scf2):
+                s.opt = {"pccg": 2}
         a, b = scf.run(), scf2.run()
         if a != b:
             problems["continued Etot"] = (float(a), float(b))
